@@ -232,7 +232,8 @@ with SqliteImpl.impl_store.impl_manager as impl:
 
     @impl(ops.clip)
     def _clip(x, lower, upper):
-        return sqa.func.max(sqa.func.min(x, upper), lower)
+        # a null bound is no bound (SQLite's scalar MAX / MIN are null if any argument is); a null `x` stays null
+        return sqa.case((x.is_(sqa.null()), sqa.null()), else_=_greatest(_least(x, upper), lower))
 
     @impl(ops.dt_day_of_week)
     def _day_of_week(x):
